@@ -367,7 +367,7 @@ func (e *l2env) state() string {
 
 // runOp executes the operation of the case.
 func (e *l2env) runOp(c Case) l2Result {
-	ctx, cancel := context.WithTimeout(e.ctx, 120*time.Second)
+	ctx, cancel := context.WithTimeout(e.ctx, 300*time.Second)
 	defer cancel()
 	rc, ct, p := e.rc, e.ct, c.P
 	src := mustRef(upName + "/" + repoSrc + ":v1")
@@ -541,12 +541,12 @@ func runL2(c Case, ev *evid.Collector) (vs []*evid.Violation, inconclusive strin
 	a := setupL2(c, true)
 	ra := a.runOp(c)
 	if ra.timeout {
-		return nil, "watchdog: L2 operation " + c.Op + " exceeded 120 s"
+		return nil, "watchdog: L2 operation " + c.Op + " exceeded 300 s: " + caseJSON(c)
 	}
 	b := setupL2(c, false)
 	rb := b.runOp(c)
 	if rb.timeout {
-		return nil, "watchdog: L2 operation " + c.Op + " (fault free twin) exceeded 120 s"
+		return nil, "watchdog: L2 operation " + c.Op + " (fault free twin) exceeded 300 s: " + caseJSON(c)
 	}
 	w := a.w
 	es := a.w.m.Entries()
@@ -579,7 +579,9 @@ func runL2(c Case, ev *evid.Collector) (vs []*evid.Violation, inconclusive strin
 				spoiled = true
 			}
 		case "lack-injected":
-			if e.Host == upName || e.Host == othName {
+			if e.Host == upName || e.Host == othName || e.Status == 416 {
+				// a 416 on a read without Range is "this host lacks it" for the walk, but when every host
+				// lacks the object the caller sees the LAST error, and 416 is not a not-found error
 				spoiled = true
 			} else {
 				lackInj++
@@ -699,13 +701,26 @@ func runL2(c Case, ev *evid.Collector) (vs []*evid.Violation, inconclusive strin
 	}
 	// a fault on the first page of the referrers API (sent with "ignore errors": never retried) that
 	// makes the client fall back to the tag scheme and return an incomplete answer is one root cause
-	refProbe := false
-	for _, e := range es {
+	refProbe, refMasked := false, false
+	for i, e := range es {
 		if e.Class == "referrers" && e.Fault != "" && !strings.Contains(e.RawQuery, "page=") && w.classify(e).kind == "transient" {
 			refProbe = true
+			// the same request then walked on to another host that answered 404: the caller only sees that last answer
+			for _, x := range es[i+1:] {
+				if x.Class != "referrers" || x.Path != e.Path || x.RawQuery != e.RawQuery {
+					break
+				}
+				if x.Host != e.Host && x.Status == 404 {
+					refMasked = true
+				}
+			}
 		}
 	}
 	switch {
+	case refMasked && ra.err == nil && (ra.out != rb.out || ra.state != rb.state):
+		add(evid.V("referrers-probe-fault-masked-by-other-host-404", "%s: %d transient faults (limit %d): the first referrers API request failed on one host with a retryable answer (not retried: sent with ignore-errors) and then reached a host that "+
+			"lacks the repository (404); the caller sees only the last answer, takes the API as unsupported, falls back to the tag and returns an incomplete result with a nil error: returned %q, fault free %q\n%s",
+			c.Op, f, c.Limit, ra.out, rb.out, dumpLog(es)))
 	case refProbe && ra.err == nil && (ra.out != rb.out || ra.state != rb.state):
 		add(evid.V("referrers-request-fault-not-retried-result-incomplete", "%s: %d transient faults (limit %d), one of them on a referrers API request; the operation returns nil but its result differs from the fault free run: returned %q, fault free %q\nfaulty:\n%sfault free:\n%s%s",
 			c.Op, f, c.Limit, ra.out, rb.out, ra.state, rb.state, dumpLog(es)))
